@@ -73,7 +73,7 @@ def run(a, rep, TypesBuild, tref):
             continue
         if only and (only.get("type") != name or only.get("config") != cname):
             continue
-        if cname not in ("c0", "c1"):
+        if cname not in ("c2", "c3"):
             continue
         model = M.Model(ch["ir"], M.Cfg(cfg["exhaustive"], cfg["serialize_empty"]))
         t = tref(name)
